@@ -702,7 +702,41 @@ func r16_4(c *RC) {
 	for _, s := range p.FieldMethodCalls(cu, "Store", "Swap", "CompareAndSwap") {
 		key := "client-used-low-entropy@" + fnName(s.Fn)
 		if s.Fn.Name() == "input" && protoGuardConst(s.Instr, 10) {
-			c.OKH(key, s.Pos(), "set only on receipt of dataClientToServerLowEntropy")
+			// ... and only for a segment that belongs to the session's own
+			// user: the drop of a foreign user's segment (the nil return on
+			// the user-mismatch edge) must not be reachable after the flag
+			// was set
+			var drop ssa.Instruction
+			instrs(s.Fn, func(b *ssa.BasicBlock, _ int, x ssa.Instruction) {
+				r, ok := x.(*ssa.Return)
+				if !ok {
+					return
+				}
+				for _, ce := range controllingEdges(b) {
+					bo, ok := ce.If.Cond.(*ssa.BinOp)
+					if !ok || bo.Op != token.NEQ || ce.Idx != 0 {
+						continue
+					}
+					userName := func(v ssa.Value) bool {
+						for _, l := range Leaves(v, nil) {
+							if f := fieldOrigin(l); f != nil && f.Name() == "UserName" {
+								return true
+							}
+						}
+						return false
+					}
+					if userName(bo.X) && userName(bo.Y) {
+						drop = r
+					}
+				}
+			})
+			if drop == nil {
+				c.Undecided(key, s.Pos(), "cannot find the foreign-user drop in Session.input")
+			} else if reachableAvoiding(s.Fn, s.Instr, func(x ssa.Instruction) bool { return x == drop }, nil) != nil {
+				c.Bad(key, s.Pos(), "clientUseLowEntropy is set before the segment's user was compared with the session's: a low-entropy datagram from another user, which is then dropped, still switches this session's downlink to low entropy although its client never used it")
+			} else {
+				c.OKH(key, s.Pos(), "set only on receipt of dataClientToServerLowEntropy, after the foreign-user drop")
+			}
 		} else {
 			c.Bad(key, s.Pos(), "clientUseLowEntropy is set outside the receipt of a dataClientToServerLowEntropy segment")
 		}
